@@ -1,5 +1,65 @@
-"""Writer-level suites shared by C03 / C06 (filled in once the writer harness domain exists)."""
+"""Writer-level suites shared by C03 / C06: the real writer over a tiny identifier pool (hook VerifWriterSetPool), so that
+exhaustion, release and re-use of identifiers are reachable through real PUBLISH deliveries."""
+from checks.brokerlib import Scenario, run_scenarios, pubstr
+
+
+def gen_pool_exhaustion(rng):
+    sc = Scenario(rng, 1, 1)
+    lo = rng.choice([1, 1, 5])
+    size = rng.choice([2, 3, 4])
+    hi = lo + size - 1
+    pubr = sc.connect(node=0)
+    subs = [sc.connect(node=0) for _ in range(rng.choice([1, 2]))]
+    for s in subs:
+        sc.sub(s, [("t", rng.choice([1, 2]))])
+    sc.ops.append(f"setpool 0 {lo} {hi}")
+    held = []          # (client, qos) deliveries outstanding
+    free = size
+    stalls = 0         # each publish that finds no identifier stalls the writer for 0.5 s: keep the script well under
+                       # the 3 s acknowledgement deadline, or the broker's own ticker starts retransmitting
+    for _ in range(rng.choice([5, 8, 12])):
+        r = rng.random()
+        if free < len(subs) and stalls >= 2:
+            r = 0.7
+        if r < 0.6:
+            if free < len(subs):
+                stalls += 1
+            sc.mid += 1
+            payload = "%02x" % (sc.mid % 256)
+            exp = {pubr: [f"puback({sc.mid})"]}
+            # recipients are served in an order the Go map decides; with fewer free ids than recipients the oracle is silent
+            need = len(subs)
+            if free >= need:
+                for s in subs:
+                    q = sc.clients[s]["subs"]["t"]
+                    exp.setdefault(s, []).append(pubstr("t", payload, q, 0, 0))
+                    held.append(s)
+                free -= need
+                sc.emit(f"pub {pubr} t {payload} 1 0 0 {sc.mid}", exp, "delivery-with-free-identifiers")
+            elif free == 0:
+                sc.emit(f"pub {pubr} t {payload} 1 0 0 {sc.mid}", exp, "delivery-without-free-identifier")
+            else:
+                sc.ops.append(f"pub {pubr} t {payload} 1 0 0 {sc.mid}")
+                free = 0
+                held += subs[:]
+        elif r < 0.9 and held:
+            s = rng.choice(subs)
+            n = sum(1 for h in held if h == s)
+            q = sc.clients[s]["subs"]["t"]
+            sc.ops.append(f"ackall {s}")
+            held = [h for h in held if h != s]
+            free = size - len(held) if free + n <= size else free
+            free = min(size, size - len(held))
+        else:
+            sc.ops.append("pool 0")
+    sc.ops.append("pool 0")
+    for s in subs:
+        sc.ops.append(f"ackall {s}")
+    sc.ops.append("pool 0")
+    return sc
 
 
 def add_pool_suites(c, samples):
-    return
+    n = 6 if c.tier == "quick" else 60
+    scs = [gen_pool_exhaustion(c.rng) for _ in range(n)]
+    run_scenarios(c, "writer-tiny-pool-exhaustion", scs, samples)
